@@ -42,6 +42,12 @@ Theorem C05_context_irrelevant : forall cfg w c c' lg sv tag its,
 Proof. exact context_irrelevant. Qed.
 Print Assumptions C05_context_irrelevant.
 
+(* a named stream object moved into another variable half-way (auto t = std::move(s);) is still the same statement *)
+Theorem C05_named_stream_moved : forall cfg th lg sv tag pre post,
+  exec_named_moved cfg th lg sv tag pre post = spec_stmt cfg th lg sv tag (pre ++ post).
+Proof. exact named_moved_same. Qed.
+Print Assumptions C05_named_stream_moved.
+
 (* the message is the concatenation, in order, of everything streamed — as long as no item makes the statement's
    std::stringstream fail (a null const char*, a null streambuf*, a user operator<< setting failbit); after such an item the
    standard stream writes nothing more (modelled as the code behaves; not part of the property's claim) *)
